@@ -52,8 +52,20 @@ func NewBundleOutgoingTransfer(id uint64, b bpv7.Bundle) *OutgoingTransfer {
 	return t
 }
 
+// maxSegmentLength is the largest amount of data put into one XFER_SEGMENT, regardless of the peer's Segment MRU.
+const maxSegmentLength uint64 = 1048576
+
 // NextSegment creates the next XFER_SEGMENT for the given MTU or an EOF in case of a finished Writer.
 func (t *OutgoingTransfer) NextSegment(mtu uint64) (dtm *msgs.DataTransmissionMessage, err error) {
+	// The MTU is the Segment MRU announced by the peer. A zero MTU would result in an endless stream of empty
+	// segments, and the segment buffer must not be sized by an arbitrary large value; smaller segments are always fine.
+	if mtu == 0 {
+		err = fmt.Errorf("segment MTU must not be zero")
+		return
+	} else if mtu > maxSegmentLength {
+		mtu = maxSegmentLength
+	}
+
 	var segFlags msgs.SegmentFlags
 
 	if t.startFlag {
